@@ -287,13 +287,19 @@ class C14(Family):
     # control/delay.py:pade of the tree under check on every run and proved equal to the model `pade`
     extra_modules = ["CtrlVerif.Props.C14Gen",
                      "CtrlVerif.Props.C14Exp"]       # zero-order hold over R: exp, ODE, sampling
+    # source-text tie of the discretisation code (notes/NOTES-py2lean-sample.md): Generated/C2d*.lean are
+    # rewritten from StateSpace.sample, TransferFunction.sample, _c2d_matched (and SciPy's cont2discrete)
+    extra_modules = extra_modules + ["CtrlVerif.Props.C14GenSample", "CtrlVerif.Props.C14GenTF",
+                                     "CtrlVerif.Props.C14GenScipy"]
 
     def pre_build(self):
         import os
         from core import py2lean_arith, leanproj
         repo = os.environ.get("VERIF_REPO") or "/repo"
         problems, self.gen_info = py2lean_arith.regenerate(repo, leanproj.LEAN, ("pade",))
-        return problems
+        from core import py2lean_c2d
+        problems2, self.gen_info_c2d = py2lean_c2d.regenerate(repo, leanproj.LEAN)
+        return problems + problems2
     externals = [
         "numpy.tan (its value tan(w*Ts/2) is an argument of the model)",
         "scipy.linalg.expm (zero-order hold: the blocks of expm(Ts*[[A,B],[0,0]]) are an argument of "
